@@ -54,7 +54,7 @@ def strategy_case(draw):
     if routine == "fi_multi" and draw(st.booleans()):
         case["fi_args"] = "tt"
     # the accuracy clause is relative, so the data scale must not matter: the user function's values are multiplied by 10^k
-    case["scale10"] = draw(st.sampled_from([0, 0, 0, -3, -6, -9, 3, 6]))
+    case["scale10"] = draw(st.sampled_from([0, 0, 0, -3, -6, -9, 3, 6, 156, -156]))
     return case
 
 
